@@ -45,13 +45,7 @@ func unpadCase(h *hctx, b []byte) {
 			map[string]any{"kind": "unpad", "padded": hx(b)})
 		impl = "panic"
 	}
-	model := h.ask("unpad " + b01(h.cfg.UnpadGuard) + " " + hx(b))
-	if model != "" {
-		h.res.Compared(1)
-		if !sameVerdict(model, impl) {
-			h.res.Mismatch(lib.Mismatch{Sig: "unpad", Input: hx(clipB(b)), Model: clip(model), Impl: clip(impl)})
-		}
-	}
+	h.check("unpad", hx(clipB(b)), "unpad "+b01(h.cfg.UnpadGuard)+" "+hx(b), impl, true)
 }
 
 // outcomeTag: "ok", "err:<class>" or "panic".
@@ -82,8 +76,7 @@ func padCase(h *hctx, msg []byte, k int) {
 		h.violate("pad-panics", fmt.Sprintf("PadMessage(len %d, k=%d) panics: %v", len(msg), k, err), rp)
 		return
 	}
-	model := h.ask("pad " + strconv.Itoa(k) + " " + hx(msg))
-	h.compare("pad", map[string]any{"k": k, "len": len(msg)}, model, "ok "+hx(padded))
+	h.check("pad", map[string]any{"k": k, "len": len(msg)}, "pad "+strconv.Itoa(k)+" "+hx(msg), "ok "+hx(padded), false)
 	// oracle
 	if len(padded)%(2*k) != 0 {
 		h.violate("pad-length-not-multiple-of-2k", fmt.Sprintf("len(PadMessage(len %d, k=%d)) = %d", len(msg), k, len(padded)), rp)
@@ -157,8 +150,7 @@ func secPadding(h *hctx, r *lib.RNG) {
 	}
 	for _, b := range inputs {
 		v, nn := binary.Uvarint(b)
-		model := h.ask("uvarint " + hx(b))
-		h.compare("uvarint", hx(b), model, fmt.Sprintf("%x %d", v, nn))
+		h.check("uvarint", hx(b), "uvarint "+hx(b), fmt.Sprintf("%x %d", v, nn), false)
 		switch {
 		case nn > 0:
 			h.res.Hit(fmt.Sprintf("uvarint:ok-len=%d", nn))
@@ -172,13 +164,13 @@ func secPadding(h *hctx, r *lib.RNG) {
 	for _, v := range []uint64{0, 1, 127, 128, 16383, 16384, 1<<21 - 1, 1 << 21, 1<<63 - 1, 1 << 63, 1<<64 - 1} {
 		buf := make([]byte, 10)
 		l := binary.PutUvarint(buf, v)
-		h.compare("putuvarint", v, h.ask(fmt.Sprintf("putuvarint %x", v)), hx(buf[:l]))
+		h.check("putuvarint", v, fmt.Sprintf("putuvarint %x", v), hx(buf[:l]), false)
 	}
 	for i := 0; i < h.f.Scale(300, 5000); i++ {
 		v := r.Uint64() >> uint(r.Intn(64))
 		buf := make([]byte, 10)
 		l := binary.PutUvarint(buf, v)
-		h.compare("putuvarint", v, h.ask(fmt.Sprintf("putuvarint %x", v)), hx(buf[:l]))
+		h.check("putuvarint", v, fmt.Sprintf("putuvarint %x", v), hx(buf[:l]), false)
 	}
 
 	// 2. PadMessage / UnpadMessage round trip at the boundaries.
